@@ -1,5 +1,6 @@
 import Driver.Proto
 import Model.Rotation
+import Model.RotationErr
 open Proto Rot
 
 /-- driver state: the rotator (if `New` succeeded), the model state with the directory held as an array of `bound`
@@ -12,11 +13,40 @@ structure D where
   size : Nat
   bound : Nat
   k : Nat
+  /-- obstacles of the environment: the directory of the log file is unreachable (every call that takes a path fails);
+      the indexes whose file cannot be removed or renamed (from or to) in this history -/
+  blocked : Bool := false
+  jam : List Nat := []
+  tick : Nat := 0
 
 def D.init : D := { cfg := none, dir := #[], isOpen := false, size := 0, bound := 1, k := 0 }
 def D.st (d : D) : St := { files := ofArray d.dir, isOpen := d.isOpen, size := d.size }
+def D.ste (d : D) : StE := { st := d.st, tick := d.tick }
 /-- store a model state (the directory is tabulated on the indexes `< bound`) -/
 def D.put (d : D) (s : St) : D := { d with dir := toArray s.files d.bound, isOpen := s.isOpen, size := s.size }
+def D.putE (d : D) (s : StE) : D := { d.put s.st with tick := s.tick }
+
+/-- the environment the harness sets up: while the directory is blocked every call that takes a path fails (calls on
+    the open descriptor do not); a jammed index fails every Remove/Rename that names it; `lim = some L` is a file size
+    limit of `L` bytes during this call (a write of `want > 0` bytes to a file of `cur` bytes gets `L - cur` bytes in) -/
+def envOf (d : D) (lim : Option Nat) : Env :=
+  { fails := fun _ c =>
+      match c with
+      | .mkdirAll => d.blocked
+      | .stat => d.blocked
+      | .openFile => d.blocked
+      | .remove i => d.blocked || d.jam.contains i
+      | .rename i j => d.blocked || d.jam.contains i || d.jam.contains j
+      | _ => false,
+    wr := fun _ cur want =>
+      match lim with
+      | none => none
+      | some L => if want = 0 ∨ cur + want ≤ L then none else some (L - cur) }
+
+def showErr : Option Sys → String
+  | none => "nil"
+  | some _ => "error"
+
 
 /-- byte `j` of the `k`-th write of a history is `(wBase k + j) mod 251`, byte `j` of the pre-existing file `i` is
     `(pBase i + j) mod 251` (position-dependent, so that a permutation inside a record would show) -/
@@ -57,38 +87,66 @@ def obs (d : D) : String :=
   let parts := (List.range d.bound).filterMap fun i => (d.dir.getD i none).map (showFile i)
   if parts.isEmpty then "empty" else " ".intercalate parts
 
+/-- `Write` of the next record of the history under the environment -/
+def doWrite (d : D) (cfg : Cfg) (n : Nat) (lim : Option Nat) : D × String :=
+  let b := recBytes (wBase d.k) n
+  match iterateE cfg (envOf d lim) 64 d.ste b with
+  | .ret s' m e =>
+    let d' := { d with k := d.k + 1 }.putE s'
+    (d', "n=" ++ toString m ++ " err=" ++ showErr e ++ " | " ++ obs d')
+  | .again s' => ({ d with k := d.k + 1 }.putE s', "hang")
+
+def doReset (o p : String) (jam : List Nat) : D × String :=
+  match parseOpts o, parsePre p with
+  | some opts, some pre =>
+    match Rot.new opts with
+    | none => (D.init, "new=err")
+    | some r =>
+      -- without a Path option the rotator would log to DefaultPath(): constructed, never written by the harness
+      if !r.pathSet then (D.init, "new=ok defaultpath") else
+      let bound := (pre.foldl (fun m q => max m q.1) r.cfg.maxBackups) + 2
+      let d := ({ D.init with cfg := some r.cfg, opts := opts, bound := bound, jam := jam }).put (fresh (preFiles pre))
+      (d, "new=ok | " ++ obs d)
+  | _, _ => (D.init, "bad-op")
+
 def step (d : D) (line : String) : D × String :=
   match words line with
-  | ["reset", o, p] =>
-    match parseOpts o, parsePre p with
-    | some opts, some pre =>
-      match Rot.new opts with
-      | none => (D.init, "new=err")
-      | some r =>
-        -- without a Path option the rotator would log to DefaultPath(): constructed, never written by the harness
-        if !r.pathSet then (D.init, "new=ok defaultpath") else
-        let bound := (pre.foldl (fun m q => max m q.1) r.cfg.maxBackups) + 2
-        let d := ({ D.init with cfg := some r.cfg, opts := opts, bound := bound }).put (fresh (preFiles pre))
-        (d, "new=ok | " ++ obs d)
-    | _, _ => (D.init, "bad-op")
+  | ["reset", o, p] => doReset o p []
+  | ["reset", o, p, j] =>
+    -- `J<i>`: in this history the file with index i can be neither removed nor renamed (from or to)
+    match j.toList with
+    | 'J' :: r => match (String.ofList r).toNat? with
+      | some i => doReset o p [i]
+      | none => (D.init, "bad-op")
+    | _ => (D.init, "bad-op")
   | ["w", n] =>
     match n.toNat?, d.cfg with
-    | some n, some cfg =>
-      let b := recBytes (wBase d.k) n
-      match iterate cfg 64 d.st b with
-      | .done s' =>
-        let d' := { d with k := d.k + 1 }.put s'
-        (d', "n=" ++ toString b.length ++ " err=nil | " ++ obs d')
-      | .again s' => ({ d with k := d.k + 1 }.put s', "hang")
+    | some n, some cfg => doWrite d cfg n none
     | some _, none => (d, "norot")
     | none, _ => (d, "bad-op")
+  | ["wlim", l, n] =>
+    -- the same Write while the file size limit of the process is `l` bytes
+    match l.toNat?, n.toNat?, d.cfg with
+    | some l, some n, some cfg => doWrite d cfg n (some l)
+    | some _, some _, none => (d, "norot")
+    | _, _, _ => (d, "bad-op")
+  | ["block"] =>
+    match d.cfg with
+    | some _ => ({ d with blocked := true }, "block=ok")
+    | none => (d, "norot")
+  | ["unblock"] =>
+    match d.cfg with
+    | some _ => ({ d with blocked := false }, "unblock=ok")
+    | none => (d, "norot")
   | ["close"] =>
     match d.cfg with
-    | some _ => let d' := d.put (close d.st); (d', "close=nil | " ++ obs d')
+    | some _ =>
+      let r := closeE (envOf d none) d.ste
+      let d' := d.putE r.s; (d', "close=" ++ showErr r.err ++ " | " ++ obs d')
     | none => (d, "norot")
   | ["reopen"] =>
     match d.cfg with
-    | some _ => let d' := d.put (reopen d.st); (d', "new=ok | " ++ obs d')
+    | some _ => let d' := d.putE (reopenE (envOf d none) d.ste).s; (d', "new=ok | " ++ obs d')
     | none => (d, "norot")
   | ["reopen", o] =>
     -- restart with other limits on the same path (the Path option of the history is kept)
@@ -98,14 +156,14 @@ def step (d : D) (line : String) : D × String :=
       match Rot.new (extra ++ [Opt.path "p"]) with
       | none => (d, "bad-op")
       | some r =>
-        let s := reopen d.st
-        let d' := { d with cfg := some r.cfg, opts := extra ++ [Opt.path "p"], bound := max d.bound (r.cfg.maxBackups + 2) }.put s
+        let s := (reopenE (envOf d none) d.ste).s
+        let d' := { d with cfg := some r.cfg, opts := extra ++ [Opt.path "p"], bound := max d.bound (r.cfg.maxBackups + 2) }.putE s
         (d', "new=ok | " ++ obs d')
     | none, some _ => (d, "norot")
     | _, none => (d, "bad-op")
   | ["sync"] =>
     match d.cfg with
-    | some _ => (d, "sync=nil")
+    | some _ => let r := syncE (envOf d none) d.ste; (d.putE r.s, "sync=" ++ showErr r.err)
     | none => (d, "norot")
   | ["obs"] =>
     match d.cfg with
